@@ -13,6 +13,7 @@ CONSTANTS Depth,
           GenConns,     \* connections that start unsubscribed and activate during the history
           GenDefaults,  \* default values explored (subset of Vals)
           GenLiteOmit,  \* suppression windows explored for the LiteParams
+          GenFixedSub,  \* the subscriptions of the connections that do not activate / deactivate themselves
           GenExtra      \* operation groups added to the alphabet: subset of {"At", "Nest", "Deact", "Untouched"}
 VARIABLE hist
 
@@ -28,12 +29,13 @@ Alphabet ==
     UNION {{op \in AtOps(p) : "At" \in GenExtra /\ op.x \in {"a", "e1"}} : p \in FullParams} \cup
     UNION {{op \in NestOps(p) : "Nest" \in GenExtra /\ op.x \in {"a", "e1"}} : p \in FullParams} \cup
     {op \in DeactOps : "Deact" \in GenExtra /\ op.p \in GenConns} \cup
-    UNION {{op \in OpsOf(p) : op.a = "ReadOk" /\ op.x = "a"} : p \in LiteParams} \cup
+    UNION {{op \in OpsOf(p) : (op.a = "ReadOk" /\ op.x = "a") \/ (op.a = "ReadRaise" /\ op.x = "e1" /\ "LiteErr" \in GenExtra)}
+           : p \in LiteParams} \cup
     {op \in ActOps : op.p \in GenConns}
 TickOp(n) == [a |-> "Tick", p |-> "-", x |-> "-", y |-> "-", n |-> n]
 
 GInit == /\ Init
-         /\ sub = [c \in Conns |-> IF c \in GenConns THEN {} ELSE {"all"}]
+         /\ sub = [c \in Conns |-> IF c \in GenConns THEN {} ELSE GenFixedSub]
          /\ \A p \in Params : cache[p].val \in GenDefaults
          /\ \A p \in LiteParams : omit[p] \in GenLiteOmit
          /\ hist = <<[op |-> [a |-> "Init", p |-> "-", x |-> "-", y |-> "-", n |-> 0],
